@@ -127,3 +127,35 @@ Example C01_seq_path_example : snd (qrun qinit qdemo_events) =
   [[QGen]; [QVal 0]; [QVal 1]; [QVal 2]; [QRaised (ErrTask 3)]; [QStopped]; [QReturned [0; 1; 2]]].
 Proof. exact qdemo_run. Qed.
 Print Assumptions C01_seq_path_example.
+
+(* ---- across the models: the parallel paths return what the one-worker path returns (Proofs/CrossPath.v) *)
+Require Import JV.Proofs.CrossPath.
+
+(* "Parallel returns what the sequential loop returns", with joblib's own sequential loop as the reference: after ANY
+   schedule of the callback-retrieval model M1 (any number of workers, any batch sizes, completions in any order, any
+   earlier calls on the object) a call that ends normally has delivered exactly the list that the one-worker path
+   (n_jobs = 1, ANY batch size, on any idle object) returns for an input of the same length *)
+Theorem C01_parallel_equals_one_worker_path : forall s q cf,
+  reach s -> mode (c s) = Ordered -> ifail s = None -> phase s = Finished -> exception s = false -> abandoned s = false ->
+  qrunning q = false -> wf_qcfg cf -> qgen cf = false -> qifail cf = None -> qtfail cf = None -> qN cf = N s ->
+  snd (qstep q (QCall cf)) = [QReturned (delivered s)].
+Proof. exact parallel_equals_one_worker_path. Qed.
+Print Assumptions C01_parallel_equals_one_worker_path.
+
+(* the same for backends without retrieval callbacks (model M1s) *)
+Theorem C01_sync_equals_one_worker_path : forall s e l q cf,
+  sreach s -> wf_sev e -> In (SReturned l) (snd (sstep s e)) -> ifail (base (fst (sstep s e))) = None ->
+  qrunning q = false -> wf_qcfg cf -> qgen cf = false -> qifail cf = None -> qtfail cf = None ->
+  qN cf = N (base (fst (sstep s e))) ->
+  snd (qstep q (QCall cf)) = [QReturned l].
+Proof. exact sync_equals_one_worker_path. Qed.
+Print Assumptions C01_sync_equals_one_worker_path.
+
+Example C01_cross_path_example :
+  let s := fst (run_events true init demo_events) in
+  let cf := {| qN := 5; qifail := None; qtfail := None; qbs := 3; qgen := false |} in
+  reach s /\ mode (c s) = Ordered /\ ifail s = None /\ phase s = Finished /\ exception s = false /\
+  abandoned s = false /\ qN cf = N s /\ wf_qcfg cf /\
+  snd (qstep qinit (QCall cf)) = [QReturned (delivered s)] /\ delivered s = [0; 1; 2; 3; 4].
+Proof. exact cross_path_demo. Qed.
+Print Assumptions C01_cross_path_example.
